@@ -73,7 +73,8 @@ contract(A + 'ThreadPool._get_results', props=['C15'],
                  """forall(lambda i: implies(i in results, results[i] == (old(results)[i] if i in old(results) else arr_val(i))))""",
                  'not (next_result in old(results)) and not arrived(next_result, _k)',
              ]),
-             1: dict(yield_type='opaque', types={'results': 'dict[int,opaque]', 'next_result': 'int'}, inv=[
+             # ('value' typed so that a version that re-uses the loop variable inside the inner loop stays inside the subset)
+             1: dict(yield_type='opaque', types={'results': 'dict[int,opaque]', 'next_result': 'int', 'value': 'opt[opaque]'}, inv=[
                  'next_result == old(next_result) + len(yielded) and len(yielded) >= 1',
                  """forall(lambda m: implies(0 <= m < len(yielded), yielded[m] ==
                        (old(results)[old(next_result) + m] if (old(next_result) + m) in old(results) else arr_val(old(next_result) + m))))""",
